@@ -127,6 +127,7 @@ fn main() {
         "c19b" => props::c19::run_b(seed, n, &mut out),
         "c01" => props::recvfm::run(seed, n, &mut out, false),
         "c02" => props::recvfm::run(seed, n, &mut out, true),
+        "c07m" => props::recvfm::run_malformed(seed, n, &mut out),
         "c09" => props::recvfm::run_enums(seed, n, &mut out),
         "c10" => props::derive::run_c10(seed, n, &mut out),
         "c06" => props::derive::run_c06(seed, n, &mut out),
